@@ -99,7 +99,41 @@ AllScalars(s) == \A i \in DOMAIN s : s[i].t \in {"str", "int"}
 Homogeneous(s) == (\A i \in DOMAIN s : s[i].t = "str") \/ (\A i \in DOMAIN s : s[i].t = "int")
 ValLt(a, b) == IF a.t = "str" THEN StrLt(a.v, b.v) ELSE a.v < b.v
 
-Known == {"append", "prepend", "upcase", "downcase", "capitalize", "strip", "lstrip", "rstrip",
+\* ---- array filters keyed by a property name ----------------------------------
+\* (filter_reference.md: where / reject / find / find_index / has / map / uniq /
+\* compact / sum / sort with a string key).  Items must be hashes; comparing with
+\* Python == across bool/int, and 0 as a "truthy" property, are UNSPECIFIED.
+AllHashes(s) == \A i \in DOMAIN s : s[i].t = "hash"
+Prop(h, k) == IF HHas(h.v, k) THEN HGet(h.v, k) ELSE Nil
+Murky(seq, k, val) ==
+  \/ \E i \in DOMAIN seq : Prop(seq[i], k).t \notin {"nil", "bool", "int", "str"}
+  \/ \E i \in DOMAIN seq : Prop(seq[i], k) = IntV(0) \/ Prop(seq[i], k) = IntV(1)
+  \/ val.t \notin {"nil", "undef", "int", "str", "bool"}
+KeyMatch(h, k, val) ==
+  IF val.t \in {"nil", "undef"} THEN Truthy(Prop(h, k)) ELSE LEq(Prop(h, k), val)
+RECURSIVE FirstIndex(_, _, _, _)
+FirstIndex(seq, k, val, i) ==
+  IF i > Len(seq) THEN 0 ELSE IF KeyMatch(seq[i], k, val) THEN i ELSE FirstIndex(seq, k, val, i + 1)
+
+\* keep the first item for every distinct key value
+RECURSIVE UniqBy(_, _, _, _)
+UniqBy(seq, keys, i, seen) ==
+  IF i > Len(seq) THEN <<>>
+  ELSE IF \E j \in DOMAIN seen : LEq(seen[j], keys[i]) /\ seen[j].t = keys[i].t THEN UniqBy(seq, keys, i + 1, seen)
+  ELSE <<seq[i]>> \o UniqBy(seq, keys, i + 1, Append(seen, keys[i]))
+
+\* stable sort of items by keys (all ints or all strings)
+RECURSIVE InsertKeyed(_, _), SortKeyed(_)
+InsertKeyed(x, s) ==
+  IF s = <<>> THEN <<x>>
+  ELSE IF ValLt(x[2], s[1][2]) THEN <<x>> \o s
+  ELSE <<s[1]>> \o InsertKeyed(x, Tail(s))
+SortKeyed(pairs) ==
+  IF pairs = <<>> THEN <<>> ELSE InsertKeyed(pairs[Len(pairs)], SortKeyed(SubSeq(pairs, 1, Len(pairs) - 1)))
+SortByKeys(seq, keys) ==
+  LET sorted == SortKeyed([i \in DOMAIN seq |-> <<seq[i], keys[i]>>]) IN [i \in DOMAIN sorted |-> sorted[i][1]]
+
+Known == {"reject", "find", "find_index", "has", "append", "prepend", "upcase", "downcase", "capitalize", "strip", "lstrip", "rstrip",
           "size", "escape", "replace", "replace_first", "remove", "remove_first", "split",
           "first", "last", "join", "default", "truncate", "reverse", "concat", "compact",
           "uniq", "sort", "map", "where", "sum", "plus", "minus", "times", "divided_by",
@@ -180,30 +214,46 @@ Apply(name, left, args, cfg) ==
               IN IF n < 0 THEN Err("UNSPEC") ELSE Str(Truncate(ls, n, end))
     [] name = "reverse" -> IF Len(args) # 0 THEN Err("LiquidTypeError") ELSE Arr(Reverse(seq))
     [] name = "compact" ->
-         IF Len(args) # 0 THEN Err("LiquidTypeError")
-         ELSE Arr(SelectSeq(seq, LAMBDA x : x.t \notin {"nil", "undef"}))
+         IF Len(args) = 0 THEN Arr(SelectSeq(seq, LAMBDA x : x.t \notin {"nil", "undef"}))
+         ELSE IF Len(args) # 1 \/ a1.t # "str" \/ ~AllHashes(seq) THEN Err("UNSPEC")
+         ELSE IF \E i \in DOMAIN seq : ~HHas(seq[i].v, a1.v) THEN Err("UNSPEC")
+         ELSE Arr(SelectSeq(seq, LAMBDA h : Prop(h, a1.v).t # "nil"))
     [] name = "concat" ->
          IF Len(args) # 1 THEN Err("LiquidTypeError")
          ELSE IF a1.t \notin {"arr", "range"} THEN Err("LiquidTypeError")
          ELSE Arr(seq \o SeqOf(a1))
-    [] name = "uniq" -> IF Len(args) # 0 THEN Err("UNSPEC") ELSE Arr(UniqSeq(seq, <<>>))
+    [] name = "uniq" ->
+         IF Len(args) = 0 THEN (IF \A i \in DOMAIN seq : seq[i].t \in {"str", "nil"} \/ (seq[i].t = "int" /\ seq[i].v \notin {0, 1})
+                                THEN Arr(UniqSeq(seq, <<>>)) ELSE Err("UNSPEC"))
+         ELSE IF Len(args) # 1 \/ a1.t # "str" \/ ~AllHashes(seq) \/ Murky(seq, a1.v, Nil) THEN Err("UNSPEC")
+         ELSE IF \E i \in DOMAIN seq : ~HHas(seq[i].v, a1.v) THEN Err("UNSPEC")
+         ELSE Arr(UniqBy(seq, [i \in DOMAIN seq |-> Prop(seq[i], a1.v)], 1, <<>>))
     [] name = "sort" ->
-         IF Len(args) # 0 THEN Err("UNSPEC")
-         ELSE IF ~(AllScalars(seq) /\ Homogeneous(seq)) THEN Err("UNSPEC")
-         ELSE Arr(SortBy(ValLt, seq))
+         IF Len(args) = 0 THEN (IF ~(AllScalars(seq) /\ Homogeneous(seq)) THEN Err("UNSPEC") ELSE Arr(SortBy(ValLt, seq)))
+         ELSE IF Len(args) # 1 \/ a1.t # "str" \/ ~AllHashes(seq) THEN Err("UNSPEC")
+         ELSE LET keys == [i \in DOMAIN seq |-> Prop(seq[i], a1.v)] IN
+              IF ~(AllScalars(keys) /\ Homogeneous(keys)) THEN Err("UNSPEC") ELSE Arr(SortByKeys(seq, keys))
     [] name = "map" ->
          IF Len(args) # 1 \/ a1.t # "str" THEN Err("UNSPEC")
          ELSE IF \E i \in DOMAIN seq : seq[i].t # "hash" THEN Err("LiquidTypeError")
          ELSE Arr([i \in DOMAIN seq |-> IF HHas(seq[i].v, a1.v) THEN HGet(seq[i].v, a1.v) ELSE Nil])
     [] name = "where" ->
-         IF Len(args) \notin {1, 2} \/ a1.t # "str" THEN Err("UNSPEC")
-         ELSE IF \E i \in DOMAIN seq : seq[i].t # "hash" THEN Err("UNSPEC")
-         ELSE Arr(SelectSeq(seq, LAMBDA h :
-                 IF Len(args) = 2 /\ a2.t \notin {"nil", "undef"}
-                 THEN HHas(h.v, a1.v) /\ LEq(HGet(h.v, a1.v), a2)
-                 ELSE HHas(h.v, a1.v) /\ Truthy(HGet(h.v, a1.v))))
+         IF Len(args) \notin {1, 2} THEN Err("LiquidTypeError")
+         ELSE IF a1.t # "str" \/ ~AllHashes(seq) \/ Murky(seq, a1.v, a2) THEN Err("UNSPEC")
+         ELSE Arr(SelectSeq(seq, LAMBDA h : KeyMatch(h, a1.v, a2)))
     [] name = "sum" ->
-         IF Len(args) # 0 THEN Err("UNSPEC") ELSE IntV(SumInts(seq))
+         IF Len(args) = 0 THEN (IF \A i \in DOMAIN seq : seq[i].t \in {"int", "nil"} THEN IntV(SumInts(seq)) ELSE Err("UNSPEC"))
+         ELSE IF Len(args) # 1 \/ a1.t # "str" \/ ~AllHashes(seq) THEN Err("UNSPEC")
+         ELSE IF \E i \in DOMAIN seq : Prop(seq[i], a1.v).t \notin {"int", "nil"} THEN Err("UNSPEC")
+         ELSE IntV(SumInts([i \in DOMAIN seq |-> Prop(seq[i], a1.v)]))
+    [] name \in {"reject", "find", "find_index", "has"} ->
+         IF Len(args) \notin {1, 2} THEN Err("LiquidTypeError")
+         ELSE IF a1.t # "str" \/ ~AllHashes(seq) \/ Murky(seq, a1.v, a2) THEN Err("UNSPEC")
+         ELSE LET idx == FirstIndex(seq, a1.v, a2, 1) IN
+              (CASE name = "reject" -> Arr(SelectSeq(seq, LAMBDA h : ~KeyMatch(h, a1.v, a2)))
+                 [] name = "find" -> IF idx = 0 THEN Nil ELSE seq[idx]
+                 [] name = "find_index" -> IF idx = 0 THEN Nil ELSE IntV(idx - 1)
+                 [] name = "has" -> Bool(idx # 0))
     [] name = "plus"  -> IF Len(args) # 1 THEN Err("LiquidTypeError") ELSE IntV(NumLeft(left) + NumArg(a1))
     [] name = "minus" -> IF Len(args) # 1 THEN Err("LiquidTypeError") ELSE IntV(NumLeft(left) - NumArg(a1))
     [] name = "times" -> IF Len(args) # 1 THEN Err("LiquidTypeError") ELSE IntV(NumLeft(left) * NumArg(a1))
